@@ -1,8 +1,8 @@
 #!/bin/bash
-# usage: verify_seed.sh <Cxx> <A|B>   -- confirms a sub-agent's seeded change in its scratch worktree
+# usage: verify_seed.sh <Cxx> <A|B|C|D> [round: "" or 2]   -- confirms a sub-agent's seeded change in its scratch worktree
 # and stores it under /verif/seeded/<Cxx>_<v>/ (patch.diff, demo.py, meta.json).
-id=$1; v=$2
-wt=/tmp/seed_$id; out=/tmp/seedout_$id
+id=$1; v=$2; R=${3:-}
+wt=/tmp/seed${R}_$id; out=/tmp/seedout${R}_$id
 patch=$out/patch_$v.diff; demo=$out/demo_$v.py
 [ -f "$patch" ] && [ -f "$demo" ] || { echo "missing files for $id $v"; exit 2; }
 cd $wt || exit 2
